@@ -13,6 +13,7 @@ from __future__ import annotations
 import asyncio
 import datetime as _dt
 import gc
+import io
 
 from .. import clock, world  # noqa: F401
 from ..runner import exc_sig
@@ -37,7 +38,8 @@ def generate(plan, build_history) -> None:
     for _ in range(r.choice([1, 1, 2, 3])):
         extra.append((r.randrange(max(1, n // 4), n + 1), {"op": "snap", "exp": r.random() < 0.4,
                                                            "down": r.choice([0, 0, 0, 30, 400, 4000, 90000]),
-                                                           "drain": r.random() < 0.9, "stall": r.choice([0, 0, 0.3, 1.5, 4.0])}))
+                                                           "drain": r.random() < 0.9, "stall": r.choice([0, 0, 0.3, 1.5, 4.0]),
+                                                           "bare": r.random() < 0.4, "fed": r.choice(["port", "port", "log"])}))
     for _ in range(r.choice([0, 0, 1, 2])):
         extra.append((r.randrange(n + 1), {"op": "adv", "s": r.choice([30, 200, 400, 800, 3700, 7300, 90000]), "how": "jump"}))
     for _ in range(r.choice([0, 1, 2])):  # a burst: several frames in one read (they get timestamps microseconds apart, or equal)
@@ -139,7 +141,12 @@ async def run(ctx) -> None:
         cfg = {"disable_discovery": True, "enforce_known_list": False, "enable_eavesdrop": eaves, "max_zones": k("max_zones", 12)}
         g2 = None
         try:
-            g2 = Gateway(name, config=cfg, **S1[0])
+            if o.get("fed") == "log":  # the restarted application replays a packet log (here: one with nothing in it yet)
+                ctx.probe("fresh_gateway_fed_by_a_packet_log")
+                cfg2 = {x: y for x, y in cfg.items() if x != "disable_discovery"}
+                g2 = Gateway(None, input_file=io.TextIOWrapper(io.BytesIO(b"")), config=cfg2, **({} if o.get("bare") else S1[0]))
+            else:
+                g2 = Gateway(name, config=cfg, **({} if o.get("bare") else S1[0]))
             if o.get("stall"):  # a slow host: restoring the cache takes about that many seconds
                 loop.iter_cost = float(o["stall"]) / max(60, 3 * len(S1[1]))
                 hub.count("slow_host_during_restore")
@@ -163,8 +170,11 @@ async def run(ctx) -> None:
         S1 = (S1[0], {d: l for d, l in S1[1].items() if own not in l})
         S2 = (S2[0], {d: l for d, l in S2[1].items() if own not in l})
         contents(S2, exp, where + " (fresh gateway)", g2)
-        compare(S1, S2, g2, where, "fresh", f"snapshot -> {down:.0f} s downtime -> fresh gateway -> snapshot" if down else
-                "snapshot -> fresh gateway -> snapshot")
+        how = " (given the packets only, not the schema)" if o.get("bare") else ""
+        if o.get("bare"):
+            ctx.probe("fresh_gateway_given_packets_only")
+        compare(S1, S2, g2, where, "fresh", (f"snapshot -> {down:.0f} s downtime -> fresh gateway{how} -> snapshot" if down else
+                                             f"snapshot -> fresh gateway{how} -> snapshot"), bare=bool(o.get("bare")))
         # restoring the same snapshot again changes nothing
         try:
             await g2._restore_cached_packets(dict(S1[1]))
@@ -194,7 +204,32 @@ async def run(ctx) -> None:
                 out.append(f"{key}: {str(a.get(key))[:300]} -> {str(b.get(key))[:300]}")
         return "; ".join(out)[:900]
 
-    def compare(A, B, g, where, tag, what, origin=None):
+    hc = k("hist_counts") or {}
+    contradictory = bool(hc.get("hist_field_mutation") or hc.get("hist_targeted_extreme"))
+
+    def superseded_topology() -> bool:
+        """the controller described the same thing twice, differently (000C / 0005 replies of one context with another content): the
+        live schema accumulated both, the state db -- hence the snapshot -- keeps the latest only"""
+        seen: dict = {}
+        for (_t, f) in delivered:
+            if f[37:41] in ("000C", "0005") and f[:2] in (" I", "RP"):
+                key = (f[7:16], f[37:41], f[:2], f[46:50])
+                if seen.setdefault(key, f[46:]) != f[46:]:
+                    return True
+        return False
+
+    def compare(A, B, g, where, tag, what, origin=None, bare=False):
+        if bare and not (contradictory or superseded_topology()) and any(
+                f[:2] in (" I", "RP") and expired_now(gwy, t.isoformat(timespec="microseconds"), f"... {f}") for (t, f) in delivered):
+            ctx.probe("packets_only_restart:_schema_not_judged_(some_of_the_history_has_expired)")
+            sch = lambda x: {}  # noqa: E731
+        elif bare and (contradictory or superseded_topology()):
+            ctx.probe("packets_only_restart:_schema_not_judged_(the_history_contradicts_itself)")
+            sch = lambda x: {}  # noqa: E731
+        elif bare:
+            sch = lambda x: {a: b for a, b in x.items() if a != "main_tcs"}  # noqa: E731
+        else:
+            sch = lambda x: x  # noqa: E731
         """B (taken later, on gateway g) must be A: nothing added, nothing changed, nothing lost except what has expired by now
         (the library drops an expired message when it is next read); the schema identical when eavesdropping is off."""
         new = []
@@ -260,8 +295,8 @@ async def run(ctx) -> None:
                          and len(first[i + 1]) == 4), "")
             ctx.violate("C16", f"packets_{kind}", f"{code}:{tag}", f"{where}: {what}: {len(A[1])} -> {len(B[1])} packets; lost={lost[:3]} "
                         f"added={new[:3]} changed={[(d, A[1][d], B[1][d]) for d in chg[:2]]}")
-        elif not eaves and tag != "downtime" and shrink(A[0]) != shrink(B[0]):
-            if "downtime" in what or any(expired_now(g, d, l) for d, l in A[1].items()):
+        elif not eaves and tag != "downtime" and shrink(sch(A[0])) != shrink(sch(B[0])):
+            if "downtime" in what or any(expired_now(g, d, l) or expired_now(gwy, d, l) for d, l in A[1].items()):
                 # which devices are 'present' depends on live packets: if some of the snapshot's packets have expired by now ...
                 ctx.probe("schema_differs_after_downtime_(expiry,_not_judged)")
             else:
